@@ -156,3 +156,43 @@ def check_composed_restore(res: Result, db: DB, entry: str, state_keys: Set[str]
       sample={"function": entry, "state_field": key, "fields_at_temporary_state": len(between), "recomputed_after_restore": len(after)},
     )
   return n
+
+
+def check_model_writes_before_restore(res: Result, db: DB, entry: str, state_keys: Set[str], lit=None) -> int:
+  """R-PAIR.4: set_const_0 / set_const_spring compute derived *Model* fields from Data evaluated at a temporary state
+  (qpos0 / qpos_spring). Every launch that writes a Model field, and every launch that produces a scratch array which a
+  Model-field writer consumes, must therefore run while the temporary state is in effect - before the restoring copy of
+  the state field. After the restore (and the optional recomputation of Data at the caller's state) nothing may write
+  a Model field any more: it would be computed from the caller's configuration instead of the reference one."""
+  hi = db.trace(entry, **(lit or {}))
+  effs = effects.trace_effects(db, hi)
+  n = 0
+  for key in sorted(state_keys):
+    clones = [(i, e) for i, e in enumerate(effs) if e.ev.kind == "alloc" and e.ev.name == "clone" and e.ev.src is not None and isinstance(root_array(e.ev.src), Field) and root_array(e.ev.src).key == key and len(e.ev.stack) == 1]
+    for ci, ce in clones:
+      temp = ce.ev.dst
+      restores = [j for j, e in enumerate(effs) if j > ci and e.ev.kind == "copy" and e.ev.dst is not None and isinstance(root_array(e.ev.dst), Field) and root_array(e.ev.dst).key == key and _is(e.ev.src, temp)]
+      if not restores:
+        continue
+      r = restores[-1]
+      late = []
+      for j in range(r + 1, len(effs)):
+        e = effs[j]
+        if e.ev.kind != "launch":
+          continue
+        mw = sorted(k for k in e.writes if k.startswith("Model."))
+        if mw and any(k.startswith("Data.") or k.startswith("temp:") for k in e.reads):
+          late.append((e, mw))
+      n += 1
+      res.ob(
+        not late,
+        f"{entry}|{key}|model-writes-before-restore",
+        Finding(
+          "R-PAIR.4",
+          f"{entry}|{key}|model-field-written-after-restore|{late[0][1][0] if late else ''}",
+          f"{entry.split('.')[-1]}() writes {late[0][1] if late else ''} ({late[0][0].ev.name if late else ''}) from Data / scratch arrays AFTER {key} was restored: the derived Model field is evaluated at the caller's configuration instead of the reference configuration",
+          late[0][0].ev.loc if late else effs[r].ev.loc,
+        ),
+        sample={"function": entry, "state_field": key, "launches_after_restore": sum(1 for j in range(r + 1, len(effs)) if effs[j].ev.kind == "launch")},
+      )
+  return n
